@@ -207,6 +207,29 @@ func d1ReducedProblemOracle(o *Out, m Meta, c *d1BiasCase, props J, kept, omitte
 	m.GoOut = J{"biased": json.RawMessage(out1), "reduced": json.RawMessage(out2)}
 	o.count("reduced:compared:" + c.q.Method)
 	o.Oracle(m, ok, "ranking of the biased request differs from the reduced request: "+why)
+	if ok && c.q.Method == "aspectEliminationHeuristic" {
+		// pairwise distinct weights determine the examination order: the request with the criteria simply deleted
+		// (kept ones in their DECLARED order) must give the same decision too
+		var declared []string
+		for _, cj := range c.q.Body["criteria"].([]interface{}) {
+			id := cj.(J)["id"].(string)
+			if heurContains(kept, id) {
+				declared = append(declared, id)
+			}
+		}
+		red2 := d1ReducedRequest(c.q.Body, declared, omitted)
+		rb2, _ := json.Marshal(red2)
+		if st3, out3 := decideJSON(rb2); st3 == 200 {
+			var r3 map[string]interface{}
+			json.Unmarshal(out3, &r3)
+			ok3, why3 := d1JsonClose(r1["result"], r3["result"], 1e-9, "result")
+			m3 := m
+			m3.Stage = "omission-reduced-problem-declared-order"
+			m3.Input = J{"biasedRequest": biased, "d1ReducedRequest": red2}
+			m3.GoOut = J{"biased": json.RawMessage(out1), "reduced": json.RawMessage(out3)}
+			o.Oracle(m3, ok3, "ranking of the biased request differs from the request with the omitted criteria deleted: "+why3)
+		}
+	}
 }
 
 // ---------- C15 ----------
